@@ -97,7 +97,7 @@ def main():
         }],
         'checks': checks,
         'not_applicable': na,
-        'notes': 'Genuine defects repaired in /repo by fix: commits d23e0de, b8b77d4, 566fb9b, 4765f55, e19479c, 8c5a6ae (see known_findings.json and DESIGN.md 12); three further genuine C16 defects are recorded as known findings.',
+        'notes': 'Genuine defects repaired in /repo by fix: commits d23e0de, b8b77d4, 566fb9b, 4765f55, e19479c, 8c5a6ae (see known_findings.json and DESIGN.md 14.3); four further genuine C16 defects are recorded as known findings.',
     }
     with open(os.path.join(V, 'MANIFEST.json'), 'w') as f:
         json.dump(m, f, indent=1)
